@@ -67,7 +67,7 @@ impl Params {
     /// parameter tuples beyond the presets
     pub fn random(rng: &mut Rng) -> Params {
         let e = [-INF, -1e3, -60.0, -12.0, -1.5, -1.0, 0.0, 0.5, 1.0, 1.5, 2.0, 10.0, 1e3, INF];
-        let w = [-INF, -2.0, -0.5, 0.0, 0.5, 1.0, 3.0, INF];
+        let w = [-INF, -1000.0, -2.0, -0.5, 0.0, 0.5, 1.0, 3.0, 20.0, INF];
         Params {
             pos: *rng.pick(&e),
             neg: *rng.pick(&e),
@@ -1019,6 +1019,28 @@ pub fn c05(ctx: &mut Ctx) -> String {
             }
         }
     }
+    // the soft-max fallback at its extremes: every positive regret forgotten at once, weights of
+    // large magnitude, payoffs of size one and of size one thousand
+    for i in 0..(if ctx.thorough { 240u64 } else { 36 }) {
+        if ctx.out_of_time() {
+            break;
+        }
+        let (t, fam) = small_game(ctx, i, 120);
+        let t = if i % 2 == 1 { t.map_payoffs(&|p| p * 1000.0) } else { t };
+        ctx.stat(&format!("family_{}", fam));
+        let method = ["F", "S", "E"][(i % 3) as usize];
+        let params = [
+            Params { pos: -INF, neg: INF, strat: 1.0, nopos: -1000.0 },
+            Params { pos: -INF, neg: 0.0, strat: 1.0, nopos: 20.0 },
+            Params { pos: -INF, neg: INF, strat: 0.0, nopos: -1.0 },
+            Params { pos: -INF, neg: 1.0, strat: 2.0, nopos: 1000.0 },
+        ][((i / 3) % 4) as usize];
+        ctx.stat("params_softmax-extremes");
+        let seed = ctx.rng.next() >> 12;
+        let cfg = Cfg { method: method.into(), params, iters: *ctx.rng.pick(&[3u64, 8, 12]), thr: 0.0, threads: if i % 5 == 4 { 2 } else { 1 }, target: None, seed };
+        let asserts: &[&str] = if cfg.threads == 1 { &["wellformed", "corr"] } else { &["wellformed"] };
+        case_solve(ctx, &solve_case(&t, &cfg, asserts));
+    }
     "all three methods x games from the mixed stream x {five presets, RegretParams::new tuples over exponents {-inf, -1e3, -1.5, -1, 0, 0.5, 1, 1.5, 2, 1e3, +inf}, gamma {0, .5, 1, 2, 3}, soft-max weights {-inf, -2, -.5, 0, .5, 1, 3, +inf}} x budgets {0, 1, 2, 7, 50} x thresholds {-1, 0, 1e-3, 0.5, +inf, NaN} x threads {0, 1, 2, 3, 4, 16, 17, 40/300, usize::MAX/3, usize::MAX/3+1, usize::MAX}; every call under catch_unwind; every fourth case additionally with the production samplers".to_string()
 }
 
@@ -1160,9 +1182,17 @@ pub fn c08(ctx: &mut Ctx) -> String {
                 Params { pos: -60.0, neg: INF, strat: 0.0, nopos: 0.0 },
                 Params { pos: -12.0, neg: INF, strat: 0.0, nopos: 0.0 },
                 Params { pos: -10.0, neg: 0.5, strat: 1.0, nopos: INF },
+                // soft-max fallback over regrets that are all far below zero (positive regrets are
+                // forgotten at once): the exponent must be shifted by the right extreme
+                Params { pos: -INF, neg: 0.0, strat: 1.0, nopos: 20.0 },
+                Params { pos: -INF, neg: INF, strat: 1.0, nopos: -1000.0 },
+                Params { pos: -INF, neg: INF, strat: 0.0, nopos: 1000.0 },
             ]);
             pn = "order-sensitive".to_string();
         }
+        // a finite soft-max weight meets regrets of size hundreds (the exponentials must be taken
+        // relative to the right extreme, or they all underflow)
+        let t = if i % 4 == 3 && params.nopos.is_finite() && params.nopos != 0.0 { t.map_payoffs(&|p| p * 64.0) } else { t };
         // with those tuples, every other time on a game in which one player's move switches the
         // other's infoset off (reach exactly zero: no new regret arrives there)
         let (t, fam) = if i % 8 == 7 {
@@ -1210,6 +1240,48 @@ pub fn c08(ctx: &mut Ctx) -> String {
                     ctx.fail_prop(&json!({"op": "default-params", "tree": t.to_json()}), "omitting the parameters differs from dcfr".to_string());
                 }
             }
+        }
+    }
+    // the soft-max fallback in earnest: matrix games with payoffs of size ten, every positive regret
+    // forgotten at once, so that again and again no regret is positive and the fallback decides -
+    // over regrets that are all well below zero
+    for i in 0..(if ctx.thorough { 120u64 } else { 18 }) {
+        if ctx.out_of_time() {
+            break;
+        }
+        let (rows, cols) = (2 + (i % 2) as u32, 3);
+        let t = if i % 3 == 0 {
+            // a safe row next to two risky ones (every regret of the column player ends up far below zero)
+            // (every sixth case with the round numbers themselves: the constant row makes the column
+            // player's regrets coincide, which is where all of them end up far below zero together)
+            let round = i % 6 == 0;
+            let mut e = |x: f64| if round { x } else { x + 0.25 * ctx.rng.unit() };
+            let pay = [[e(3.0), e(3.0), e(3.0)], [e(9.0), e(4.0), e(-10.0)], [e(6.0), e(-10.0), e(-2.0)]];
+            T::Player(true, 0, (0..3u32).map(|r| (r, T::Player(false, 0, (0..3u32).map(|c| (c, T::Term(pay[r as usize][c as usize]))).collect()))).collect())
+        } else {
+            matrix_game(&mut ctx.rng, rows, cols).map_payoffs(&|p| p * 5.0)
+        };
+        ctx.stat("family_matrix-softmax");
+        let params = [
+            Params { pos: -INF, neg: 0.0, strat: 1.0, nopos: 20.0 },
+            Params { pos: -INF, neg: 0.5, strat: 2.0, nopos: 1000.0 },
+            Params { pos: -INF, neg: INF, strat: 1.0, nopos: -1000.0 },
+            Params { pos: -INF, neg: 1.0, strat: 0.0, nopos: -20.0 },
+            Params { pos: -INF, neg: 0.0, strat: 1.0, nopos: 3.0 },
+            Params { pos: -INF, neg: INF, strat: 1.0, nopos: 0.5 },
+        ][(i % 6) as usize];
+        ctx.stat("params_softmax-in-earnest");
+        let method = ["F", "F", "E"][((i / 6) % 3) as usize];
+        let seed = ctx.rng.next() >> 12;
+        for tt in [2u64, 5, 8, 13, 21, 40] {
+            let cfg = Cfg { method: method.into(), params, iters: tt, thr: 0.0, threads: 1, target: None, seed };
+            let mut case = solve_case(&t, &cfg, &["corr"]);
+            if i % 6 == 0 && method == "F" {
+                // a 3 x 3 matrix game on one thread: both sides perform the same operations in the
+                // same order, ties included
+                case["exact"] = json!(true);
+            }
+            case_solve(ctx, &case);
         }
     }
     "solves of all three methods under the keyed draw hook (single-threaded on the whole grid, 2/3/4/8 threads on three budgets for every third game): games from the mixed stream (generic and tie-rich integer payoffs) x presets and custom tuples incl. 0 and +-inf x every prefix budget in {0,1,2,3,5,8,13,21,34,50}; returned strategies, both bounds and the draw log against the model; preset tuples and the default through the public fields".to_string()
